@@ -7,8 +7,13 @@
 /* no do-while(0) here: CBMC counts every do-while as a loop, which would shift the loop numbering ir2c reports */
 #define IR2C_TRAP() { ir2c_trap_hook(); __CPROVER_assume(0); }
 #define IR2C_UNREACHABLE() { __CPROVER_assert(0, "UB: reached llvm unreachable"); __CPROVER_assume(0); }
+#ifdef IR2C_NO_ATOMIC_SECTIONS   /* single-threaded harnesses whose event hooks call back into translated code (CBMC forbids nested atomic sections) */
+#define IR2C_ATOMIC_BEGIN() ((void)0)
+#define IR2C_ATOMIC_END() ((void)0)
+#else
 #define IR2C_ATOMIC_BEGIN() __CPROVER_atomic_begin()
 #define IR2C_ATOMIC_END() __CPROVER_atomic_end()
+#endif
 _Bool nondet_bool(void);
 #define IR2C_WEAK_CAS_OK() nondet_bool()
 #else
@@ -38,15 +43,18 @@ void ir2c_trap_hook(void);
 void ir2c_event_load(const void *p, const char *order);
 void ir2c_event_store(const void *p, const char *order);
 void ir2c_event_rmw(const void *p, const char *order);
+void ir2c_event_stored(const void *p, const char *order);   /* after an atomic store, still inside its atomic section */
 void ir2c_event_fence(const char *order);
 #define IR2C_EVENT_LOAD(p, o) ir2c_event_load((p), (o))
 #define IR2C_EVENT_STORE(p, o) ir2c_event_store((p), (o))
 #define IR2C_EVENT_RMW(p, o) ir2c_event_rmw((p), (o))
+#define IR2C_EVENT_STORED(p, o) ir2c_event_stored((p), (o))
 #define IR2C_FENCE(o) ir2c_event_fence(o)
 #else
 #define IR2C_EVENT_LOAD(p, o) ((void)0)
 #define IR2C_EVENT_STORE(p, o) ((void)0)
 #define IR2C_EVENT_RMW(p, o) ((void)0)
+#define IR2C_EVENT_STORED(p, o) ((void)0)
 #define IR2C_FENCE(o) ((void)0)
 #endif
 #if defined(__CPROVER__) && !defined(IR2C_LIBC_MEM)
